@@ -729,7 +729,15 @@ func init() {
 						panic(err)
 					}
 					ts24 = r.Timestamp
-					est = r.Estimate(time.Unix(0, send+delay)).UnixNano()
+					// Estimate must give the same instant whether the extension came over the wire
+					// (24-bit Timestamp) or straight from the constructor (which keeps the unmasked
+					// ntp>>14): half of the cases take each route, the model is the same for both.
+					if c.R.Bool() {
+						est = r.Estimate(time.Unix(0, send+delay)).UnixNano()
+					} else {
+						c.Tag("estimate-on-constructor-value")
+						est = e.Estimate(time.Unix(0, send+delay)).UnixNano()
+					}
 				}) {
 					c.O.Panic()
 					return
